@@ -54,11 +54,11 @@ QS = f"{ESC}5[Cc]"
 # Any Unicode codepoint except for \ or '. Used for UTF-8 chars inside single
 # quotes hence the need for the escape characters and a way to escape a
 # a backslash.
-QUTF8 = r"[^'\\]+"
+QUTF8 = r"[^'\\]"
 DSTRING = f"({QS}|{QQ}|{QUTF8})+"
 QDSTRING = f"{SQUOTE}{DSTRING}{SQUOTE}"
-QDSTRINGLIST = f"({QDSTRING}({SP}{QDSTRING})*)?"
-QDSTRINGS = f"({QDSTRING}|{LPAREN}{WSP}{QDSTRINGLIST}{WSP}{RPAREN})"
+QDSTRINGLIST = f"({QDSTRING}({SP}{QDSTRING})*{WSP})?"
+QDSTRINGS = f"({QDSTRING}|{LPAREN}{WSP}{QDSTRINGLIST}{RPAREN})"
 
 
 XSTRING = f"[xX]{HYPHEN}([a-zA-Z]|{HYPHEN}|{USCORE})+"
